@@ -968,8 +968,8 @@ func callBuiltin(caller *frame, callpos token.Pos, fn *ssa.Builtin, args []value
 			return arg0
 		}
 		// append([]T, ...[]T) []T
-		// (never alias the backing array of the first argument beyond its cap)
-		return append(args[0].([]value), args[1].([]value)...)
+		// Elements are memory cells: aggregates must be copied, not shared.
+		return append(args[0].([]value), copyVals(args[1].([]value))...)
 
 	case "copy": // copy([]T, []T) int or copy([]byte, string) int
 		src := args[1]
@@ -977,7 +977,7 @@ func callBuiltin(caller *frame, callpos token.Pos, fn *ssa.Builtin, args []value
 			params := fn.Type().(*types.Signature).Params()
 			src = caller.i.conv(params.At(0).Type(), params.At(1).Type(), src)
 		}
-		return copy(args[0].([]value), src.([]value))
+		return copy(args[0].([]value), copyVals(src.([]value)))
 
 	case "close": // close(chan T)
 		caller.i.chanClose(caller, args[0])
@@ -1508,4 +1508,39 @@ func fandbits[F floaty](x, y F) F {
 		*(*uint64)(unsafe.Pointer(&x)) &= *(*uint64)(unsafe.Pointer(&y))
 	}
 	return x
+}
+
+// copyVal deep-copies aggregate values (struct/array); scalars, pointers,
+// slices, maps etc. are reference or immutable values and are shared.
+func copyVal(v value) value {
+	switch v := v.(type) {
+	case structure:
+		c := make(structure, len(v))
+		for i := range v {
+			c[i] = copyVal(v[i])
+		}
+		return c
+	case array:
+		c := make(array, len(v))
+		for i := range v {
+			c[i] = copyVal(v[i])
+		}
+		return c
+	}
+	return v
+}
+
+func copyVals(s []value) []value {
+	if len(s) == 0 {
+		return s
+	}
+	switch s[0].(type) {
+	case structure, array:
+		c := make([]value, len(s))
+		for i := range s {
+			c[i] = copyVal(s[i])
+		}
+		return c
+	}
+	return s
 }
